@@ -301,48 +301,78 @@ Proof.
 Qed.
 
 Definition T_of (j : bool) : natt -> tg := if j then tH_of else tG_of.
-Definition lftg (c : gr) (j : bool) (ch : list N) : gr := parse_r (rev (side_entries (side_graph c j) ch)).
-Definition sideS (c : gr) (j : bool) (ch : list N) : gr := sync_side (ctxg c ch) (lftg c j ch).
 
-Lemma lft_gn c j ch n : IOK c ->
-  gn_find n (rev (side_entries (side_graph c j) ch)) =
-  match label c n with Some a => if mem n ch then Some (node_label (side_att (T_of j a) n)) else None | None => None end.
+(** a graph that carries one side (j = false: before, j = true: after) of the ITS c, whatever its insertion order and
+    whatever else its node dictionaries hold: the GML writer reads only element, charge and the scalar order *)
+Record side_like (c : gr) (j : bool) (s : gr) : Prop := {
+  sl_wf : gwf s;
+  sl_none : forall n, label c n = None -> label s n = None;
+  sl_some : forall n a, label c n = Some a ->
+            exists b, label s n = Some b /\ a_el b = Some (tg_el (T_of j a)) /\ a_ch b = Some (tg_ch (T_of j a));
+  sl_adj : forall u v, adj s u v = dd c j u v }.
+
+Lemma a_ch_side t n : a_ch (side_att t n) = Some (tg_ch t).
+Proof. destruct t as [[[e a] h] q]. reflexivity. Qed.
+Lemma a_el_side t n : a_el (side_att t n) = Some (tg_el t).
+Proof. destruct t as [[[e a] h] q]. reflexivity. Qed.
+
+Lemma side_graph_like c j : IOK c -> side_like c j (side_graph c j).
 Proof.
-  intros Hok. rewrite side_entries_eq, rev_app_distr, gn_find_app.
-  rewrite gn_find_sel by apply (gwf_nd _ (side_graph_gwf c j)).
-  rewrite gn_find_edges by (intros e He; exact (Eent_edges _ _ _ He)).
-  fold (label (side_graph c j) n). rewrite side_graph_label by exact Hok. unfold T_of.
-  destruct (label c n); simpl; [destruct (mem n ch)|]; reflexivity.
+  intros Hok. split.
+  - apply side_graph_gwf.
+  - intros n L. rewrite side_graph_label, L by exact Hok. reflexivity.
+  - intros n a L. rewrite side_graph_label, L by exact Hok. simpl. eexists. split; [reflexivity|].
+    unfold T_of. destruct j; rewrite a_el_side, a_ch_side; auto.
+  - intros u v. apply side_graph_adj. exact Hok.
 Qed.
 
-Lemma sideS_label c j ch n : IOK c ->
+Definition lftg (s : gr) (ch : list N) : gr := parse_r (rev (side_entries s ch)).
+Definition sideS (c s : gr) (ch : list N) : gr := sync_side (ctxg c ch) (lftg s ch).
+
+Lemma lft_gn c j s ch n : side_like c j s ->
+  gn_find n (rev (side_entries s ch)) =
+  match label c n with
+  | Some a => if mem n ch then Some (tg_el (T_of j a) ++ charge_to_string (tg_ch (T_of j a))) else None
+  | None => None
+  end.
+Proof.
+  intros SL. rewrite side_entries_eq, rev_app_distr, gn_find_app.
+  rewrite gn_find_sel by apply (gwf_nd _ (sl_wf _ _ _ SL)).
+  rewrite gn_find_edges by (intros e He; exact (Eent_edges _ _ _ He)).
+  fold (label s n). destruct (label c n) as [a|] eqn:L.
+  - destruct (sl_some _ _ _ SL n a L) as (b & Lb & E1 & E2). rewrite Lb. unfold node_label. rewrite E1, E2. simpl.
+    destruct (mem n ch); reflexivity.
+  - rewrite (sl_none _ _ _ SL n L). reflexivity.
+Qed.
+
+Lemma sideS_label c j s ch n : IOK c -> side_like c j s ->
   (forall a, label c n = Some a -> elem_str (tg_el (T_of j a))) ->
   (forall a, label c n = Some a -> mem n ch = false -> a_el a = Some (tg_el (T_of j a)) /\ a_ch a = Some (tg_ch (T_of j a))) ->
-  label (sideS c j ch) n = option_map (fun a => gnode_att n (tg_el (T_of j a)) (tg_ch (T_of j a))) (label c n).
+  label (sideS c s ch) n = option_map (fun a => gnode_att n (tg_el (T_of j a)) (tg_ch (T_of j a))) (label c n).
 Proof.
-  intros Hok Hel HT. pose proof (iok_gwf c Hok) as W. unfold sideS.
+  intros Hok SL Hel HT. pose proof (iok_gwf c Hok) as W. unfold sideS.
   rewrite sync_label by (try apply parse_gwf; apply ctx_gedges). rewrite ctx_label by exact W.
-  unfold lftg. rewrite parse_label, lft_gn by exact Hok.
+  unfold lftg. rewrite parse_label, (lft_gn c j s ch n SL).
   destruct (label c n) as [a|] eqn:L; simpl.
   - destruct (mem n ch) eqn:M.
-    + rewrite node_label_side, node_att_label by (apply Hel; reflexivity). reflexivity.
+    + rewrite node_att_label by (apply Hel; reflexivity). reflexivity.
     + destruct (HT a eq_refl eq_refl) as [E1 E2]. unfold node_label. rewrite E1, E2. simpl.
       rewrite node_att_label by (apply Hel; reflexivity).
       match goal with |- context [endp n ?l] => destruct (endp n l) end; reflexivity.
   - match goal with |- context [endp n ?l] => destruct (endp n l) eqn:E end; [|reflexivity]. exfalso.
     rewrite side_entries_eq, rev_app_distr, endp_app in E.
     rewrite endp_nodes in E by (intros e He; exact (Nent_nodes _ _ _ He)). simpl in E.
-    apply endp_edges_iter in E; [|apply side_graph_gwf]. apply has_node_label in E. destruct E as [b Hb].
-    rewrite side_graph_label, L in Hb by exact Hok. discriminate.
+    apply endp_edges_iter in E; [|apply (sl_wf _ _ _ SL)]. apply has_node_label in E. destruct E as [b Hb].
+    rewrite (sl_none _ _ _ SL n L) in Hb. discriminate.
 Qed.
 
-Lemma sideS_adj c j ch u v : IOK c ->
-  adj (sideS c j ch) u v = option_map (fun x => edge_att (order_label_any (e_ord x) 2)) (dd c j u v).
+Lemma sideS_adj c j s ch u v : side_like c j s ->
+  adj (sideS c s ch) u v = option_map (fun x => edge_att (order_label_any (e_ord x) 2)) (dd c j u v).
 Proof.
-  intros Hok. unfold sideS. rewrite sync_adj by apply ctx_gedges. unfold lftg. rewrite parse_adj.
+  intros SL. unfold sideS. rewrite sync_adj by apply ctx_gedges. unfold lftg. rewrite parse_adj.
   rewrite side_entries_eq, rev_app_distr, ge_find_app.
   rewrite ge_find_nodes by (intros e He; exact (Nent_nodes _ _ _ He)).
-  rewrite ge_find_edges_iter by apply side_graph_gwf. rewrite side_graph_adj by exact Hok.
+  rewrite ge_find_edges_iter by apply (sl_wf _ _ _ SL). rewrite (sl_adj _ _ _ SL).
   destruct (dd c j u v); reflexivity.
 Qed.
 
@@ -350,36 +380,92 @@ Lemma ord_ok_cases o : ord_ok o = true -> o = 0 \/ o = 2 \/ o = 3 \/ o = 4 \/ o 
 Proof. unfold ord_ok. rewrite !orb_true_iff, !Z.eqb_eq. tauto. Qed.
 
 (** before/after order of a pair as the synchronised side graph carries it *)
-Lemma sideS_scal c (j : bool) ch u v x : IOK c -> adj c u v = Some x ->
+Lemma sideS_scal c (j : bool) s ch u v x : IOK c -> side_like c j s -> adj c u v = Some x ->
   let o := if j then snd (ord_of x) else fst (ord_of x) in
-  scal_order (sideS c j ch) u v = o /\ is_some (adj (sideS c j ch) u v) = (0 <? o).
+  scal_order (sideS c s ch) u v = o /\ is_some (adj (sideS c s ch) u v) = (0 <? o).
 Proof.
-  intros Hok A. destruct (iok_edge c u v x Hok A) as (a & b & -> & Oa & Ob & _).
-  unfold scal_order. rewrite sideS_adj by exact Hok. unfold dd. rewrite A. unfold ord_of. simpl.
+  intros Hok SL A. destruct (iok_edge c u v x Hok A) as (a & b & -> & Oa & Ob & _).
+  unfold scal_order. rewrite (sideS_adj c j s ch u v SL). unfold dd. rewrite A. unfold ord_of. simpl.
   destruct j; simpl.
   - destruct (ord_ok_cases b Ob) as [->|[->|[->|[->| ->]]]]; simpl; auto.
   - destruct (ord_ok_cases a Oa) as [->|[->|[->|[->| ->]]]]; simpl; auto.
 Qed.
-Lemma sideS_adj_none c j ch u v : IOK c -> adj c u v = None -> adj (sideS c j ch) u v = None.
-Proof. intros Hok A. rewrite sideS_adj by exact Hok. unfold dd. rewrite A. reflexivity. Qed.
+Lemma sideS_adj_none c j s ch u v : side_like c j s -> adj c u v = None -> adj (sideS c s ch) u v = None.
+Proof. intros SL A. rewrite (sideS_adj c j s ch u v SL). unfold dd. rewrite A. reflexivity. Qed.
 
 (** ** the round trip *)
+Lemma chg_mem c sL sR n a : side_like c false sL -> side_like c true sR -> label c n = Some a ->
+  mem n (find_changed sL sR) = negb (tg_ch (tG_of a) =? tg_ch (tH_of a)).
+Proof.
+  intros SL SR L. rewrite mem_find_changed by apply (gwf_nd _ (sl_wf _ _ _ SL)).
+  destruct (sl_some _ _ _ SL n a L) as (b & Lb & _ & E2). destruct (sl_some _ _ _ SR n a L) as (b' & Lb' & _ & E2').
+  rewrite Lb, Lb'. unfold cheq. rewrite E2, E2'. reflexivity.
+Qed.
+
+(** reader after writer on ANY triple (sL, sR, c) whose first two components carry the two sides of c *)
+Theorem gml_pipeline c sL sR : IOK c -> side_like c false sL -> side_like c true sR ->
+  let ch := find_changed sL sR in
+  let I' := snd (gml_to_nx [(SLeft, side_entries sL ch); (SContext, context_entries c ch false); (SRight, side_entries sR ch)]) in
+  (forall n, has_node I' n = has_node c n) /\
+  (forall n a, label c n = Some a ->
+     label I' n = Some (gml_node n (tg_el (tG_of a)) (tg_ch (tG_of a)) (tg_ch (tH_of a)))) /\
+  (forall u v, adj I' u v = adj c u v).
+Proof.
+  intros Hok SL SR ch I'. pose proof (iok_gwf c Hok) as W.
+  assert (I' = its_construct (sideS c sL ch) (sideS c sR ch) (union_pairs (sideS c sL ch) (sideS c sR ch))) as EI.
+  { unfold I'. rewrite gml_to_nx_three. reflexivity. }
+  (* node labels of the two synchronised sides *)
+  assert (forall n, label (sideS c sL ch) n =
+                    option_map (fun a => gnode_att n (tg_el (tG_of a)) (tg_ch (tG_of a))) (label c n)) as HL.
+  { intros n. apply (sideS_label c false sL ch n Hok SL).
+    - intros a L. destruct (iok_node c n a Hok L) as (e & ar & h & q & ar' & h' & q' & Ht & _ & _ & He).
+      unfold T_of, tG_of. rewrite Ht. exact He.
+    - intros a L _. destruct (iok_node c n a Hok L) as (e & ar & h & q & ar' & h' & q' & Ht & E1 & E2 & _).
+      unfold T_of, tG_of. rewrite Ht. simpl. auto. }
+  assert (forall n, label (sideS c sR ch) n =
+                    option_map (fun a => gnode_att n (tg_el (tG_of a)) (tg_ch (tH_of a))) (label c n)) as HR.
+  { intros n. rewrite (sideS_label c true sR ch n Hok SR).
+    - destruct (label c n) as [a|] eqn:L; [|reflexivity]. simpl.
+      destruct (iok_node c n a Hok L) as (e & ar & h & q & ar' & h' & q' & Ht & _).
+      unfold T_of, tG_of, tH_of. rewrite Ht. reflexivity.
+    - intros a L. destruct (iok_node c n a Hok L) as (e & ar & h & q & ar' & h' & q' & Ht & _ & _ & He).
+      unfold T_of, tH_of. rewrite Ht. exact He.
+    - intros a L M. unfold ch in M. rewrite (chg_mem c sL sR n a SL SR L) in M. apply negb_false_iff, Z.eqb_eq in M.
+      destruct (iok_node c n a Hok L) as (e & ar & h & q & ar' & h' & q' & Ht & E1 & E2 & _).
+      unfold T_of, tG_of, tH_of in *. rewrite Ht in *. simpl in *. subst q'. auto. }
+  (* R2 *)
+  assert (forall n a, label c n = Some a ->
+            label I' n = Some (gml_node n (tg_el (tG_of a)) (tg_ch (tG_of a)) (tg_ch (tH_of a)))) as R2.
+  { intros n a L. rewrite EI.
+    assert (exists b, assoc n (its_nodes (sideS c sL ch) (sideS c sR ch)) = Some b /\ a_am b = Some (Z.of_N n)) as (b & Eb & Hb).
+    { rewrite its_nodes_assoc. cbv zeta. destruct (_ <=? _)%nat; [rewrite HL|rewrite HR]; rewrite L; simpl; eexists; split; reflexivity. }
+    rewrite (its_construct_label _ _ _ n b Eb). unfold its_node, tg_of. rewrite HL, HR, L. simpl. rewrite Hb. reflexivity. }
+  (* edges *)
+  assert (forall u v, adj I' u v = adj c u v) as R3.
+  { intros u v. rewrite EI, its_construct_adj. destruct (adj c u v) as [x|] eqn:A.
+    - destruct (sideS_scal c false sL ch u v x Hok SL A) as [S1 I1]. destruct (sideS_scal c true sR ch u v x Hok SR A) as [S2 I2].
+      cbv zeta in *. unfold its_d. rewrite S1, S2, I1, I2.
+      destruct (iok_edge c u v x Hok A) as (a & b & -> & Oa & Ob & Hne & _). unfold ord_of. simpl.
+      destruct (ord_ok_cases a Oa) as [->|[->|[->|[->| ->]]]]; destruct (ord_ok_cases b Ob) as [->|[->|[->|[->| ->]]]];
+        simpl; try reflexivity. exfalso. destruct Hne; congruence.
+    - rewrite (sideS_adj_none c false sL ch u v SL A), (sideS_adj_none c true sR ch u v SR A). reflexivity. }
+  split; [|split; assumption].
+  intros n. apply eq_true_iff_eq. split.
+  - rewrite EI. intros H. apply its_construct_has_node in H. destruct H as [H|[H|(w & H)]].
+    + apply has_node_label in H. destruct H as [b Hb]. rewrite HL in Hb. unfold has_node. destruct (label c n); [reflexivity|discriminate].
+    + apply has_node_label in H. destruct H as [b Hb]. rewrite HR in Hb. unfold has_node. destruct (label c n); [reflexivity|discriminate].
+    + destruct (adj c n w) as [x|] eqn:A.
+      * destruct (iok_edge c n w x Hok A) as (a & b & _ & _ & _ & _ & Hn & _). exact Hn.
+      * rewrite (sideS_adj_none c false sL ch n w SL A), (sideS_adj_none c true sR ch n w SR A) in H. destruct H; discriminate.
+  - intros H. apply has_node_label in H. destruct H as [a La]. apply has_node_label. eexists. apply (R2 n a La).
+Qed.
+
 Lemma its_to_gml_rec c : IOK c ->
   its_to_gml c false false false =
   let ch := find_changed (side_graph c false) (side_graph c true) in
   [(SLeft, side_entries (side_graph c false) ch); (SContext, context_entries c ch false);
    (SRight, side_entries (side_graph c true) ch)].
 Proof. intros Hok. unfold its_to_gml. rewrite its_decompose_sides by exact Hok. reflexivity. Qed.
-
-Lemma a_ch_side t n : a_ch (side_att t n) = Some (tg_ch t).
-Proof. destruct t as [[[e a] h] q]. reflexivity. Qed.
-
-Lemma chg_mem c n a : IOK c -> label c n = Some a ->
-  mem n (find_changed (side_graph c false) (side_graph c true)) = negb (tg_ch (tG_of a) =? tg_ch (tH_of a)).
-Proof.
-  intros Hok L. rewrite mem_find_changed by apply (gwf_nd _ (side_graph_gwf c false)).
-  rewrite !side_graph_label by exact Hok. rewrite L. simpl. unfold cheq. rewrite !a_ch_side. reflexivity.
-Qed.
 
 Theorem gml_roundtrip_iok c : IOK c ->
   let I' := gml_to_its (its_to_gml c false false false) in
@@ -388,56 +474,9 @@ Theorem gml_roundtrip_iok c : IOK c ->
      label I' n = Some (gml_node n (tg_el (tG_of a)) (tg_ch (tG_of a)) (tg_ch (tH_of a)))) /\
   (forall u v, adj I' u v = adj c u v).
 Proof.
-  intros Hok I'. pose proof (iok_gwf c Hok) as W.
-  set (ch := find_changed (side_graph c false) (side_graph c true)).
-  assert (I' = its_construct (sideS c false ch) (sideS c true ch) (union_pairs (sideS c false ch) (sideS c true ch))) as EI.
-  { unfold I', gml_to_its. rewrite its_to_gml_rec by exact Hok. cbv zeta. fold ch. rewrite gml_to_nx_three. reflexivity. }
-  (* node labels of the two synchronised sides *)
-  assert (forall n, label (sideS c false ch) n =
-                    option_map (fun a => gnode_att n (tg_el (tG_of a)) (tg_ch (tG_of a))) (label c n)) as HL.
-  { intros n. apply (sideS_label c false ch n Hok).
-    - intros a L. destruct (iok_node c n a Hok L) as (e & ar & h & q & ar' & h' & q' & Ht & _ & _ & He).
-      unfold T_of, tG_of. rewrite Ht. exact He.
-    - intros a L _. destruct (iok_node c n a Hok L) as (e & ar & h & q & ar' & h' & q' & Ht & E1 & E2 & _).
-      unfold T_of, tG_of. rewrite Ht. simpl. auto. }
-  assert (forall n, label (sideS c true ch) n =
-                    option_map (fun a => gnode_att n (tg_el (tG_of a)) (tg_ch (tH_of a))) (label c n)) as HR.
-  { intros n. rewrite (sideS_label c true ch n Hok).
-    - destruct (label c n) as [a|] eqn:L; [|reflexivity]. simpl.
-      destruct (iok_node c n a Hok L) as (e & ar & h & q & ar' & h' & q' & Ht & _).
-      unfold T_of, tG_of, tH_of. rewrite Ht. reflexivity.
-    - intros a L. destruct (iok_node c n a Hok L) as (e & ar & h & q & ar' & h' & q' & Ht & _ & _ & He).
-      unfold T_of, tH_of. rewrite Ht. exact He.
-    - intros a L M. unfold ch in M. rewrite (chg_mem c n a Hok L) in M. apply negb_false_iff, Z.eqb_eq in M.
-      destruct (iok_node c n a Hok L) as (e & ar & h & q & ar' & h' & q' & Ht & E1 & E2 & _).
-      unfold T_of, tG_of, tH_of in *. rewrite Ht in *. simpl in *. subst q'. auto. }
-  (* R2 *)
-  assert (forall n a, label c n = Some a ->
-            label I' n = Some (gml_node n (tg_el (tG_of a)) (tg_ch (tG_of a)) (tg_ch (tH_of a)))) as R2.
-  { intros n a L. rewrite EI.
-    assert (exists b, assoc n (its_nodes (sideS c false ch) (sideS c true ch)) = Some b /\ a_am b = Some (Z.of_N n)) as (b & Eb & Hb).
-    { rewrite its_nodes_assoc. cbv zeta. destruct (_ <=? _)%nat; [rewrite HL|rewrite HR]; rewrite L; simpl; eexists; split; reflexivity. }
-    rewrite (its_construct_label _ _ _ n b Eb). unfold its_node, tg_of. rewrite HL, HR, L. simpl. rewrite Hb. reflexivity. }
-  (* edges *)
-  assert (forall u v, adj I' u v = adj c u v) as R3.
-  { intros u v. rewrite EI, its_construct_adj. destruct (adj c u v) as [x|] eqn:A.
-    - destruct (sideS_scal c false ch u v x Hok A) as [S1 I1]. destruct (sideS_scal c true ch u v x Hok A) as [S2 I2].
-      cbv zeta in *. unfold its_d. rewrite S1, S2, I1, I2.
-      destruct (iok_edge c u v x Hok A) as (a & b & -> & Oa & Ob & Hne & _). unfold ord_of. simpl.
-      destruct (ord_ok_cases a Oa) as [->|[->|[->|[->| ->]]]]; destruct (ord_ok_cases b Ob) as [->|[->|[->|[->| ->]]]];
-        simpl; try reflexivity. exfalso. destruct Hne; congruence.
-    - rewrite !sideS_adj_none by assumption. reflexivity. }
-  split; [|split; assumption].
-  intros n. apply eq_true_iff_eq. split.
-  - rewrite EI. intros H. apply its_construct_has_node in H. destruct H as [H|[H|(w & H)]].
-    + apply has_node_label in H. destruct H as [b Hb]. rewrite HL in Hb. unfold has_node. destruct (label c n); [reflexivity|discriminate].
-    + apply has_node_label in H. destruct H as [b Hb]. rewrite HR in Hb. unfold has_node. destruct (label c n); [reflexivity|discriminate].
-    + destruct (adj c n w) as [x|] eqn:A.
-      * destruct (iok_edge c n w x Hok A) as (a & b & _ & _ & _ & _ & Hn & _). exact Hn.
-      * rewrite !sideS_adj_none in H by assumption. destruct H; discriminate.
-  - intros H. apply has_node_label in H. destruct H as [a La]. apply has_node_label. eexists. apply (R2 n a La).
+  intros Hok. unfold gml_to_its. rewrite its_to_gml_rec by exact Hok.
+  apply (gml_pipeline c _ _ Hok (side_graph_like c false Hok) (side_graph_like c true Hok)).
 Qed.
-
 
 Theorem gml_roundtrip c : its_ok c = true ->
   let I' := gml_to_its (its_to_gml c false false false) in
